@@ -100,7 +100,7 @@ pub async fn run(cfg: RunCfg) -> RunResult {
     }
 
     // ---------------- replay spill ----------------
-    let nbatches = rng.range(0, 7) as usize;
+    let nbatches = if cfg.thorough() { rng.range(0, 15) } else { rng.range(0, 7) } as usize;
     let sizes: Vec<usize> = (0..nbatches).map(|_| rng.range(1, 30) as usize).collect();
     let memory_limit = *rng.pick(&[0usize, 1, 300, 2_000, 1 << 30]);
     let finish = rng.chance(0.9);
